@@ -294,12 +294,12 @@ func (en *Engine) Probe() (caps Caps, degraded []string) {
 		return n
 	}
 	if n := count(recQ); n > 0 && n < 3 {
-		degraded = append(degraded, fmt.Sprintf("the queue goroutine consults the context at %d points per iteration, the protocol has 3 (loop top, after take+count, blocking offer): a check was dropped", n))
+		degraded = append(degraded, fmt.Sprintf("the lane's non-worker goroutines consult the context at %d points per iteration, the queue goroutine of Model/TaskLane.v at 3 (loop top, after take+count, blocking offer): either a check was dropped or the implementation no longer has the goroutine structure of the model - the theorems do not cover it as it stands", n))
 	} else if n >= 3 && !(caps.Q0 && caps.Q1 && caps.Q2) {
 		degraded = append(degraded, "the queue goroutine has its three context checks but they no longer mean loop top / after take+count / blocking offer (probes failed)")
 	}
 	if n := count(recW); n > 0 && n < 2 {
-		degraded = append(degraded, fmt.Sprintf("the worker consults the context at %d points per iteration, the protocol has 2 (loop top, blocking receive): a check was dropped", n))
+		degraded = append(degraded, fmt.Sprintf("the worker goroutines consult the context at %d points per iteration, the worker of Model/TaskLane.v at 2 (loop top, blocking receive): either a check was dropped or the implementation no longer has the goroutine structure of the model - the theorems do not cover it as it stands", n))
 	} else if n >= 2 && !(caps.W0 && caps.W1) {
 		degraded = append(degraded, "the worker has its two context checks but they no longer mean loop top / blocking receive (probes failed)")
 	}
